@@ -171,8 +171,7 @@ def run(ctx):
         z = [st for st in a.stores_to(INFO + name) if same_value(a, a.ap(st.ops[1]).root, s) and const_int(st.ops[0]) == 0 and
              lib.loop_containing(a, st) is not None]
         adds = [st for st in a.stores_to(INFO + name) if same_value(a, a.ap(st.ops[1]).root, s) and const_int(st.ops[0]) is None]
-        okz = len(z) >= 1 and bool(adds) and all(st not in a.reachable_from(z[0]) or True for st in adds) and \
-            all(z[0] not in a.reachable_from(st) for st in adds)
+        okz = len(z) >= 1 and bool(adds) and all(z[0] not in a.reachable_from(st) for st in adds)
         # the zeroing loop runs over the whole array: its bound is the array length
         okb = False
         if z:
